@@ -382,8 +382,12 @@ static void do_api(op_t op) {
         MD[s].batch_size = BSZ[op.b]; if (BSZ[op.b]) { MD[s].ever_batched = 1; MD[s].life |= 1; } if (MD[s].nmb) MD[s].ba_unsure = 1; break; }
     case O_BATCH_TMO: {
         m_mod_t *h = handle(s); take_snap(&sn);
+        if (op.d == 1) shim_inject_timerfd_fail = 1;      /* fault deviation: the timeout's timer cannot be created during this call */
         rc = m_mod_set_batch_timeout(h, TMO[op.b]);
+        int tfail = op.d == 1 && !shim_inject_timerfd_fail; shim_inject_timerfd_fail = 0;
         if (!MD[s].present || ctx_hidden()) { REFUSED(rc, "m_mod_set_batch_timeout", "ST.refuse|batch"); break; }
+        if (tfail && rc < 0 && rc != -EAGAIN) {      /* reported failure: no timed batching from now on (events must not be held for a timer that does not exist) */
+            MD[s].batch_tmo = 0; mt_del(s, -1); MD[s].batch_fired = 0; MD[s].batch_due = 0; MD[s].life |= 2; if (MD[s].nmb) MD[s].ba_unsure = 1; break; }
         if (tb_account(s, rc, &sn, "set_batch_timeout")) break;
         if (rc) vfail("BA.set", "BA.set|timeout", "m_mod_set_batch_timeout(%lu) returned %d", (unsigned long)TMO[op.b], rc);
         MD[s].batch_tmo = op.b; mt_del(s, -1); MD[s].batch_fired = 0; MD[s].batch_due = 0; if (op.b) { MD[s].ever_batched = 1; MD[s].life |= 2; } if (MD[s].nmb) MD[s].ba_unsure = 1;
@@ -444,8 +448,12 @@ static void do_api(op_t op) {
         break; }
     case O_BUCKET: {
         m_mod_t *h = handle(s); take_snap(&sn);
+        if (op.d == 1) shim_inject_timerfd_fail = 1;      /* fault deviation: the refill timer cannot be created during this call */
         rc = m_mod_set_tokenbucket(h, TBCFG[op.b].rate, TBCFG[op.b].burst);
+        int tfail = op.d == 1 && !shim_inject_timerfd_fail; shim_inject_timerfd_fail = 0;
         if (!MD[s].present || ctx_hidden()) { REFUSED(rc, "m_mod_set_tokenbucket", "ST.refuse|bucket"); break; }
+        if (tfail && rc < 0) {      /* reported failure: whatever the module had before, it must not be left throttled without refill - the monitor goes on with "no bucket" (a later EAGAIN is TB.off) */
+            MD[s].tb_prev = 0; MD[s].tb_rate = 0; MD[s].tb_burst = 0; memset(&TBLOG[s], 0, sizeof TBLOG[s]); MD[s].life |= 4; break; }
         if (rc == -EAGAIN && MD[s].tb_rate > 0) { TBLOG[s].refusals++; break; }      /* reconfiguration itself consumes tokens (source registration) */
         if (rc) vfail("TB.set", "TB.set", "m_mod_set_tokenbucket(%d,%d) returned %d", TBCFG[op.b].rate, TBCFG[op.b].burst, rc);
         if (TBCFG[op.b].rate) MD[s].life |= 4;
